@@ -23,7 +23,8 @@ THEOREMS = [P + t for t in ("flow_is_modelled", "identity_unset_refused", "ident
                               "store_refines_reference", "unique_keys_reachable", "store_refines_reference_history", "view_absS",
                               "content_after_history", "nid_unique_rewrite_counterexample", "nid_unique_partial", "backends_agree_partial",
                               "backends_diverge_on_rehoming_counterexample", "disjoint_container_refines_reference",
-                              "disjoint_find_matching_refines", "backends_agree_find_matching")]
+                              "disjoint_find_matching_refines", "backends_agree_find_matching", "reference_is_local",
+                              "backends_agree_rekey")]
 TRUSTED_BASE = [
     "Model/Store.lean, Model/DStore.lean mirror the two backends method by method; Model/AGraph.lean (`AGraph.step`) is the "
     "reference model of the documented interface (hand-written; all three are run in lock step against the real classes)",
@@ -40,17 +41,26 @@ TRUSTED_BASE = [
     "the stores' threading.Lock is replaced by a counting stand-in in single-threaded histories (locks are C20's)",
 ]
 ASSUMPTIONS = [
-    "property values are any JSON value without floats (str, None, '', 0, False, ints, bools, lists, dicts); updates never write "
-    "GraphID or NodeID (re-homing is C14's; the disjoint store cannot express it); non-string values are never compared with "
-    "each other by the modelled code paths (python's 1 == True is not modelled)",
-    "merge_nodes is called with another graph id than the caller's; on the disjoint backend it raises RuntimeError as documented "
-    "and lock-step comparison of that backend stops at the first successful merge",
-    "imports and clones are C04's (the backends deliberately differ there: replace vs. warn-and-skip)",
+    "property values are any JSON value without floats (str, None, '', 0, False, ints, bools, lists, dicts); non-string values are "
+    "never compared with each other by the modelled code paths (python's 1 == True is not modelled)",
+    "GraphID / NodeID are ordinary writable properties and are written by the generated histories (updates, initial properties, "
+    "merge policies, direct imports): the store-level reference and both store models follow the rewrite; what the property "
+    "forbids about the result (a node id no longer unique in its graph; the disjoint backend parting from the shared one after a "
+    "GraphID write) is reported under the 12 known-finding signatures C05:nid_unique:<op>:{NodeID,GraphID}-rewritten and "
+    "C05:backends:<op>:GraphID-rewritten, each triggered by a corpus case on every run",
+    "merge_nodes on the disjoint backend raises RuntimeError as documented and lock-step comparison of that backend stops at the "
+    "first successful merge; the refinement of merge_nodes to the reference model needs the (GraphID, NodeID) keys of the stored "
+    "nodes to be pairwise distinct (UniqueKeys: an invariant of every history that does not rewrite keys)",
+    "imports and clones are C04's for the backend comparison (the backends deliberately differ there: replace vs. warn-and-skip); "
+    "the store-level reference and its correspondence stream include them",
 ]
 RULE = ("corpus first, then state-aware operation histories (depth <= 40) plus every continuation of depth 2 of a fixed two-graph prefix over a "
         "53-operation alphabet (thorough: also depth 3 over the 28 operations addressed to the first graph or to both); 3 graph ids, "
-        "4 node ids, 3 classes, 2 relations, property names {Name, Type, Class, NodeID, GraphID (unset only), p, q}; non-trivial = "
-        ">= 2 graphs touched and >= 1 failing call; distinct by op-kind sequence")
+        "4 node ids, 3 classes, 2 relations, property names {Name, Type, Class, NodeID, GraphID, p, q}; a second stream of histories "
+        "writes GraphID / NodeID in 10-12% of the updates / initial properties / merge policies, merges a graph with itself, calls "
+        "delete_all_graphs, and (correspondence only) imports, imports directly and clones; 12% of the histories open with a chain of "
+        "merges over three graphs sharing a node id (self-links included); non-trivial = >= 2 graphs touched and >= 1 failing call; "
+        "distinct by op-kind sequence")
 
 CORPUS = os.path.join(core.CORPUS_DIR, "C05")
 C05_KINDS = (["add_node"] * 5 + ["delete_node", "add_link", "add_link", "add_link", "update_node_property", "unset_node_property",
